@@ -209,7 +209,7 @@ func init() {
 			"op": OpcodeNames[op], "a": a, "nx": nx, "sp": sp, "nh": nh})
 	}
 	VerifSyncFn = func(vm *VM, point string) {
-		if point != "run.enter" && point != "run.exit" {
+		if point != "run.enter" && point != "run.exit" && point != "throw" {
 			return
 		}
 		mu.Lock()
